@@ -92,6 +92,56 @@ def classify(n, ps):
     return "other:" + (last or "bare"), top
 
 
+def check_identity_order(fx, rep, rule, names, floor):
+    # orderings by *identity*: a type variable's number is its allocation order, which follows the hash iteration order of the
+    # values being registered. Sorting / taking a minimum by anything that contains a type variable turns that hidden order into
+    # visible output order.
+    ORDERERS = {"sort", "sort_unstable", "sorted", "sorted_unstable", "sort_by_key", "sort_unstable_by_key", "sort_by_cached_key", "sorted_by_key", "sorted_by_cached_key",
+                "min", "max", "min_by_key", "max_by_key", "sort_by", "sorted_by", "min_by", "max_by"}
+    IDENT = ("TypeVariable", "tc::expression::Span", "tc::expression::TypeExpression", "tc::unification::Judgement", "tc::unification::Equality", "std::sync::Arc<", "*const", "*mut")
+    n_ord = 0
+    for name in names:
+        b = fx.body(name)
+        if not b or "hir" not in b or b.get("from_expansion"):
+            continue
+        k_ord = 0
+        for n, ps in F.calls(b["hir"]["value"]):
+            if n.get("k") != "MethodCall" or n["method"] not in ORDERERS or n.get("exp"):
+                continue
+            m = n["method"]
+            key_ty = None
+            clo = [F.strip(a) for a in n["args"] if F.strip(a).get("k") == "Closure"]
+            if m.endswith("_by_key") or m.endswith("_cached_key"):
+                if clo:
+                    body = clo[0]["body"]
+                    key_ty = body.get("ty") or ""
+            elif m.endswith("_by"):
+                # comparator closure: the types of what it compares
+                if clo:
+                    key_ty = " ".join((x.get("recv_ty") or "") + " " + " ".join((a.get("ty") or "") for a in x.get("args", [])) for x, _ in F.calls(clo[0]["body"]) if x.get("k") == "MethodCall" and x["method"] in ("cmp", "partial_cmp", "then", "then_with"))
+            elif m in ("sorted", "sorted_unstable", "min", "max"):
+                key_ty = n.get("ty") or ""  # `vec::IntoIter<T>` / `Option<T>`: the element type
+            else:
+                key_ty = n.get("recv_ty") or ""  # `Vec<T>` / `[T]`
+            if key_ty is None:
+                continue
+            n_ord += 1
+            k_ord += 1
+            ident = [t for t in IDENT if t in key_ty]
+            # plain integers / tuples of integers are fine; anything that embeds an identity is not
+            rep.oblige(
+                not ident,
+                rule,
+                f"identity-order:{F.strip_generics(name) if not name.startswith('<') else name}#{k_ord}",
+                F.loc(n["span"]),
+                f"`{name}` orders elements with `{m}` by a key of type `{key_ty.strip()[:80]}`, which embeds {ident}: type-variable numbers follow the order in which values were registered (hash iteration order), so this ordering makes the result depend on the hash seed",
+                sample={"rule": rule, "fn": name, "orders_with": m, "key_type": key_ty.strip()[:80]} if n_ord <= 6 else None,
+            )
+    rep.floor(rule, n_ord, floor, "sorting / ordering calls in scope")
+    return n_ord
+
+
+
 def check(fx, rep, tier):
     cg = F.CallGraph(fx)
     entries = [b["def"] for b in fx.fn_bodies() if (b.get("impl_self") or "").startswith("extractor::Extractor<") and b.get("name") == "analyze"]
@@ -144,51 +194,7 @@ def check(fx, rep, tier):
     stale = sorted(set(rows) - set(found))
     rep.extra["stale_rows"] = stale
 
-    # orderings by *identity*: a type variable's number is its allocation order, which follows the hash iteration order of the
-    # values being registered. Sorting / taking a minimum by anything that contains a type variable turns that hidden order into
-    # visible output order.
-    ORDERERS = {"sort", "sort_unstable", "sorted", "sorted_unstable", "sort_by_key", "sort_unstable_by_key", "sort_by_cached_key", "sorted_by_key", "sorted_by_cached_key",
-                "min", "max", "min_by_key", "max_by_key", "sort_by", "sorted_by", "min_by", "max_by"}
-    IDENT = ("TypeVariable", "tc::expression::Span", "tc::expression::TypeExpression", "tc::unification::Judgement", "tc::unification::Equality", "std::sync::Arc<", "*const", "*mut")
-    n_ord = 0
-    for name in sorted(pipe):
-        b = fx.body(name)
-        if not b or "hir" not in b or b.get("from_expansion"):
-            continue
-        k_ord = 0
-        for n, ps in F.calls(b["hir"]["value"]):
-            if n.get("k") != "MethodCall" or n["method"] not in ORDERERS or n.get("exp"):
-                continue
-            m = n["method"]
-            key_ty = None
-            clo = [F.strip(a) for a in n["args"] if F.strip(a).get("k") == "Closure"]
-            if m.endswith("_by_key") or m.endswith("_cached_key"):
-                if clo:
-                    body = clo[0]["body"]
-                    key_ty = body.get("ty") or ""
-            elif m.endswith("_by"):
-                # comparator closure: the types of what it compares
-                if clo:
-                    key_ty = " ".join((x.get("recv_ty") or "") + " " + " ".join((a.get("ty") or "") for a in x.get("args", [])) for x, _ in F.calls(clo[0]["body"]) if x.get("k") == "MethodCall" and x["method"] in ("cmp", "partial_cmp", "then", "then_with"))
-            elif m in ("sorted", "sorted_unstable", "min", "max"):
-                key_ty = n.get("ty") or ""  # `vec::IntoIter<T>` / `Option<T>`: the element type
-            else:
-                key_ty = n.get("recv_ty") or ""  # `Vec<T>` / `[T]`
-            if key_ty is None:
-                continue
-            n_ord += 1
-            k_ord += 1
-            ident = [t for t in IDENT if t in key_ty]
-            # plain integers / tuples of integers are fine; anything that embeds an identity is not
-            rep.oblige(
-                not ident,
-                "R02.1",
-                f"identity-order:{F.strip_generics(name) if not name.startswith('<') else name}#{k_ord}",
-                F.loc(n["span"]),
-                f"`{name}` orders elements with `{m}` by a key of type `{key_ty.strip()[:80]}`, which embeds {ident}: type-variable numbers follow the order in which values were registered (hash iteration order), so this ordering makes the result depend on the hash seed",
-                sample={"rule": "R02.1", "fn": name, "orders_with": m, "key_type": key_ty.strip()[:80]} if n_ord <= 6 else None,
-            )
-    rep.floor("R02.1", n_ord, 3, "sorting / ordering calls on the analyze() call graph")
+    check_identity_order(fx, rep, "R02.1", sorted(pipe), 3)
 
     # ---------------------------------------------------------------- R02.2
     from ..mergemodel import MergeModel
